@@ -124,6 +124,12 @@ EXPORT errno_t _strcpyfldout_s_chk(char *dest, rsize_t dmax, const char *src,
             slen--;
             *dest++ = *src++;
         }
+        /* the terminator must not land on the source either */
+        if (unlikely(dest == overlap_bumper)) {
+            handle_error(orig_dest, orig_dmax,
+                         "strcpyfldout_s: overlapping objects", ESOVRLP);
+            return (ESOVRLP);
+        }
     } else {
         overlap_bumper = dest;
 
